@@ -48,7 +48,7 @@ def classes():
         for mod in (A, B):
             for n in ('src_plus', 'src_times'):
                 w = getattr(mod, n)
-                K.register_hashable_function(w, inspect.getsource(w.__wrapped__))
+                K.register_hashable_function(w, inspect.getsource(w.__wrapped__), permanent=True)
     return _CLASSES
 
 
